@@ -49,6 +49,7 @@ func newWorld(seed int64) *world {
 		"Tx": harness.ForgedToken(seed), "Tg": {0xff, 0xff, 0xff, 0xff, 0xff},
 	}
 	w.encs = map[string][]byte{"E1": w.p.E[0].Pub, "E2": w.p.E[1].Pub, "ER": w.er.Pub}
+	w.encs["E1t"] = w.enc("E1t").Pub
 	return w
 }
 
@@ -64,6 +65,14 @@ func (w *world) key(name string) *harness.CertKey {
 func (w *world) enc(name string) *harness.EncKey {
 	if name == "ER" {
 		return w.er
+	}
+	if name == "E1t" {
+		// E1's key pair with the top bit of the public key's last byte flipped:
+		// X25519 ignores that bit, a byte comparison must not
+		e := *w.p.E[0]
+		e.Pub = append([]byte{}, e.Pub...)
+		e.Pub[len(e.Pub)-1] ^= 0x80
+		return &e
 	}
 	return w.p.E[int(name[1]-'1')]
 }
@@ -151,9 +160,13 @@ type fetch struct {
 	K, E, N string
 	V       int  // wrapped-info variant 0..7
 	W       bool // server configured with the registration wrapper
+	S       bool // server call carries a *storage* wrapper: the foreign wrapper of variant 4
 }
 
 func (f fetch) label() string {
+	if f.S {
+		return fmt.Sprintf("fetch:%s:%s:%s:v%d:w%v:storage-wrapper", f.K, f.E, f.N, f.V, f.W)
+	}
 	return fmt.Sprintf("fetch:%s:%s:%s:v%d:w%v", f.K, f.E, f.N, f.V, f.W)
 }
 
@@ -225,6 +238,10 @@ func (w *world) opts(f fetch) []nodeenrollment.Option {
 	if f.W {
 		o = append(o, nodeenrollment.WithRegistrationWrapper(w.w))
 	}
+	if f.S {
+		// the data-at-rest key is not the registration key: info sealed with it entitles to nothing
+		o = append(o, nodeenrollment.WithStorageWrapper(w.wx))
+	}
 	return o
 }
 
@@ -262,7 +279,7 @@ func (w *world) doFetch(s *state, f fetch) (*state, string, string, string) {
 			return ns, "response-wrong-nonce", "credentials echo a nonce different from the request's; " + why, ""
 		}
 		otherE := "E1"
-		if f.E == "E1" {
+		if f.E == "E1" || f.E == "E1t" { // (E1t is E1's private key)
 			otherE = "E2"
 		}
 		if _, oerr := harness.OpenResponse(resp, w.key(f.K), w.enc(otherE)); oerr == nil {
@@ -326,7 +343,7 @@ func menusFor(c *engine.Ctx) menus {
 	return menus{
 		opKeys: []string{"K1", "K2"}, fetchKeys: []string{"K1", "K2", "K3"}, encs: []string{"E1", "E2"},
 		opNonces: []string{"N1", "N2"}, fetchNonces: []string{"N1", "N2", "T1", "Tx"},
-		variants: []int{0, 1, 2, 3, 5, 6, 8, 9, 10}, tokens: []string{"T1"}, depth: 3,
+		variants: []int{0, 1, 2, 3, 4, 5, 6, 8, 9, 10}, tokens: []string{"T1"}, depth: 3,
 	}
 }
 
@@ -422,7 +439,7 @@ func parseFetch(label string) fetch {
 	f := strings.Split(label, ":")
 	var v int
 	fmt.Sscanf(f[4], "v%d", &v)
-	return fetch{K: f[1], E: f[2], N: f[3], V: v, W: f[5] == "wtrue"}
+	return fetch{K: f[1], E: f[2], N: f[3], V: v, W: f[5] == "wtrue", S: len(f) > 6}
 }
 
 func (w *world) explore(c *engine.Ctx, r *engine.Report, hasR bool) {
@@ -446,14 +463,17 @@ func (w *world) explore(c *engine.Ctx, r *engine.Report, hasR bool) {
 	opLabels = append(opLabels, "age", "reinit-roots")
 	var fetches []fetch
 	for _, k := range m.fetchKeys {
-		for _, e := range m.encs {
+		for _, e := range append(append([]string{}, m.encs...), "E1t") {
 			for _, n := range m.fetchNonces {
 				for _, v := range m.variants {
 					for _, wOn := range []bool{false, true} {
 						if v >= 5 && v <= 7 && wOn {
 							continue // the wrapper is not consulted on the re-wrapped path
 						}
-						fetches = append(fetches, fetch{k, e, n, v, wOn})
+						fetches = append(fetches, fetch{K: k, E: e, N: n, V: v, W: wOn})
+						if v == 4 && !wOn {
+							fetches = append(fetches, fetch{K: k, E: e, N: n, V: v, S: true})
+						}
 					}
 				}
 			}
@@ -571,7 +591,7 @@ func init() {
 	engine.Register(&engine.CheckDef{
 		ID:    "C01",
 		Level: "model_checking",
-		Rule: "BFS over operator actions {authorize(K,E,N), create token, remove node (including the re-wrapping node), age past the token lifetime, replace the server's roots} and every well-signed fetch request from {K1,K2,K3}x{E1,E2}x{N1,N2,T1,T2,forged token,garbage}x{11 wrapped / re-wrapped / self-supplied-clear-info variants}x{registration wrapper configured or not} (quick: reduced menus, depth 3; thorough: full menus, depth 4 - the full-menu fixpoint has > 70000 states x 576 fetch shapes and does not finish in the thorough budget), from two initial states (re-wrapping node R registered or not); state key = per key (nonce id, encryption key id) of its record, per token status, all record ids; " +
+		Rule: "BFS over operator actions {authorize(K,E,N), create token, remove node (including the re-wrapping node), age past the token lifetime, replace the server's roots} and every well-signed fetch request from {K1,K2,K3}x{E1,E2,E1 with the ignored top bit of its last byte flipped}x{N1,N2,T1,T2,forged token,garbage}x{11 wrapped / re-wrapped / self-supplied-clear-info variants}x{registration wrapper configured or not} (quick: reduced menus, depth 3; thorough: full menus, depth 4 - the full-menu fixpoint has > 70000 states x 576 fetch shapes and does not finish in the thorough budget), from two initial states (re-wrapping node R registered or not); state key = per key (nonce id, encryption key id) of its record, per token status, all record ids; " +
 			"states/transitions are counted by the search; distinct_nontrivial = distinct (oracle branch, request class) pairs observed",
 		Assumptions: []string{"a 'forged' request is one assembled from other pool members; signature forgery is outside the model", "the canonical key drops the server encryption key, certificate bundles and state of a record: no transition or oracle of this check reads them"},
 		Shards:      func(c *engine.Ctx) int { return 2 },
